@@ -619,7 +619,7 @@ pub fn corpus() -> Vec<KCase> {
     c.bf_ok = false;
     v.push(c);
     // a limit the forward search respects stops the reverse search: 0 -> 1 -> 2 and 3, 4, 5 -> 2, size limit 2:
-    // the query must fail with the explicit `terminated` error (C10, 7780888), not return the shortest route alone
+    // the query must fail with the explicit `terminated` error (C10, 37e54f7), not return the shortest route alone
     let mut b = base_case(vec![(0, 1, 1.0), (1, 2, 1.0), (3, 2, 1.0), (4, 2, 1.0), (5, 2, 1.0)], 6, 0, 2);
     b.term = Term::Size(2);
     v.push(kcase(b, "reverse-search-limit-witness"));
@@ -2001,7 +2001,7 @@ fn run_single_via(ctx: &mut Ctx, idx: usize, kc: &KCase) {
                 ctx.fail(idx, "ksp/single-via-reverse-limit-shortened-answer", format!("expected the explicit 'terminated size' error, got '{}'", k));
             }
             // an answerable query must not become an error — except that a limit hit by any sub-search
-            // is the explicit `terminated` error (C10, 7780888)
+            // is the explicit `terminated` error (C10, 37e54f7)
             if let (Outcome::Ok(_), Some(_), false) = (&plain.outcome, k_eff, k.starts_with("terminated")) {
                 if inner_target(c).is_some() {
                     let stage = if ex.runs >= 2 && ex.pops.is_empty() { "reverse-search" } else if !ex.pops.is_empty() { "alternative" } else { "first-search" };
